@@ -24,9 +24,10 @@ func c14Check(src string, info *vlib.Info) *vlib.Failure {
 
 func TestC14(t *testing.T) {
 	h := vlib.New(t, "C14", "exploration",
-		"inputs to the scanner alone: token sequences enumerated after canonical prefixes, rapid token soups, mutated fixtures, the fixtures themselves; the oracle applies to inputs scanned to EOF without error; non-trivial = >= 3 lexemes including a body or annotation; distinct by input hash",
+		"inputs to the scanner alone: token sequences enumerated after canonical prefixes, rapid token soups, mutated fixtures, the fixtures themselves; plus, through the whole pipeline, every token and token pair after the file name of an INCLUDE (accepted with an unchanged catalog only if the text is blank or comment); the oracle applies to inputs scanned to EOF without error; non-trivial = >= 3 lexemes including a body or annotation; distinct by input hash",
 		"the schema library's Len() is the reference for where a schema / enum value ends", "the gap recogniser is written from the language description (README), not from the step functions")
-	h.Require("scanned-to-eof", "scanner-rejects")
+	h.Require("scanned-to-eof", "scanner-rejects", "include-line-tail", "include-line-tail-refused")
+	defer vlib.CleanupScratch()
 	// failing inputs of the native fuzz arm (thorough tier, driver-run) replay through this campaign
 	vlib.Enum(h, "native-fuzz", false, func(func(string) bool) {}, c14Check)
 
@@ -52,6 +53,51 @@ func TestC14(t *testing.T) {
 			eachTokenSeqJoin(vlib.Prefixes, vlib.SigmaSmall, h.Pick(2, 3), joiner, h.Mine, yield)
 		}, c14Check)
 	}
+	// through the whole pipeline: what follows the file name on an INCLUDE line
+	// is read by the including file's scanner after the included file is done;
+	// content there must have an effect or be refused
+	type incTail struct {
+		Sep  string `json:"sep"`
+		Tail string `json:"tail"`
+	}
+	vlib.Enum(h, "content-after-include-name", true, func(yield func(incTail) bool) {
+		i := 0
+		emit := func(c incTail) bool {
+			i++
+			return !h.Mine(i) || yield(c)
+		}
+		for _, sep := range []string{" ", "\t", "  "} {
+			for _, a := range vlib.Sigma {
+				if !emit(incTail{sep, a}) {
+					return
+				}
+				for _, b := range vlib.SigmaSmall {
+					if !emit(incTail{sep, a + " " + b}) {
+						return
+					}
+				}
+			}
+		}
+	}, func(c incTail, info *vlib.Info) *vlib.Failure {
+		mk := func(tail string) vlib.Project {
+			return vlib.Project{Root: "root.jst", Files: map[string]string{
+				"root.jst": "JSIGHT 0.3\nINCLUDE inc.jst" + tail + "\nTYPE @after\n{}\n",
+				"inc.jst":  "TYPE @t\n{}\n"}}
+		}
+		trivia := vlib.TriviaOnly(c.Sep + c.Tail)
+		info.Class("include-line-tail")
+		info.NonTrivial = !trivia
+		res := vlib.Run(mk(c.Sep + c.Tail))
+		if res.Panic != "" || !res.Accepted {
+			info.Class("include-line-tail-refused")
+			return nil
+		}
+		base := vlib.Run(mk(""))
+		if !trivia && base.Accepted && res.JSON == base.JSON {
+			return vlib.Failf("dropped-content", "the text %q after the file name of an INCLUDE is neither blank nor comment, yet the project is accepted and its catalog is the same as without it", c.Sep+c.Tail)
+		}
+		return nil
+	})
 	vlib.Rapid(h, "token-soup", h.N(40000, 2000000), func(t *rapid.T) string {
 		pre := rapid.SampledFrom(vlib.Prefixes).Draw(t, "prefix")
 		return pre + vlib.GenTokenSoup(t, 14)
